@@ -1,13 +1,13 @@
 SPECIFICATION MCSpec
 CONSTANTS
   Relax = {}
-  Mode = "honest"
-  MaxBlocks = 3
-  Layouts = {"plain"}
+  Mode = "revoked"
+  MaxBlocks = 2
+  Layouts = {"plain", "fee_after", "fee_after_change", "fee_before", "fee_between", "extra_out", "two_fees"}
   MaxUnwind = 0
   Features = {}
-  Defect = "none"
-  MaxReload = 1
+  Defect = "ignore_unpaired"
+  MaxReload = 0
 CONSTRAINT Bounded
 VIEW View
 INVARIANT TypeOK
